@@ -73,7 +73,8 @@ Menu(s) ==
                         d \in {-s.cursor, -s.cursor - 1, -s.cursor + 1, s.doff - s.cursor, s.cap - s.cursor}}
                    \cup {[k |-> "rewind", p |-> "end", v |-> s.cap - s.doff], [k |-> "start", p |-> "start", v |-> s.doff]}
                : op.k = "rewind" /\ RewindOk(s, op)})
-  \cup (IF WithClear /\ s.cursor # s.doff THEN {[k |-> "clear"]} ELSE {})
+  \* (also with the cursor at the data offset: discarded bytes, a free list or stale bytes may be left behind there)
+  \cup (IF WithClear /\ (hist = <<>> \/ hist[Len(hist)].k # "clear") THEN {[k |-> "clear"]} ELSE {})
   \cup (IF WithReopen /\ Backend = "file" /\ Len(hist) > 0 /\ hist[Len(hist)].k # "reopen"
         THEN {[k |-> "reopen", variant |-> "map_mut", cap |-> 0, flush |-> FALSE, create |-> FALSE]} ELSE {})
   \cup {[k |-> "truncate", v |-> v] : v \in {v \in TruncSet : Max(v, s.cursor) # s.cap}}
